@@ -1,0 +1,78 @@
+//go:build verif
+
+package cluster
+
+import (
+	"sync/atomic"
+	"time"
+
+	"github.com/emitter-io/emitter/internal/event"
+	"github.com/emitter-io/emitter/internal/message"
+	"github.com/weaveworks/mesh"
+)
+
+// VerifSetGossip replaces the gossip interface the swarm broadcasts on and that peers created
+// afterwards send frames through. Used by the runtime monitors under /verif to attach a
+// simulated transport at the I/O boundary.
+func (s *Swarm) VerifSetGossip(g mesh.Gossip) { s.gossip = g }
+
+// VerifManualPeers makes the swarm create its peers without the 5ms flush ticker, so that the
+// caller is the only flusher (production has exactly one flusher per peer).
+func (s *Swarm) VerifManualPeers() {
+	s.members.ctor = func(name mesh.PeerName) *Peer { return VerifNewPeer(s.gossip, name) }
+}
+
+// VerifNewPeer builds a peer over the supplied sender without starting the flush ticker.
+func VerifNewPeer(sender mesh.Gossip, name mesh.PeerName) *Peer {
+	return &Peer{
+		sender:   sender,
+		name:     name,
+		frame:    message.NewFrame(defaultFrameSize),
+		subs:     message.NewCounters(),
+		activity: time.Now().Unix(),
+	}
+}
+
+// VerifFlush runs one pass of the send queue processor synchronously.
+func (p *Peer) VerifFlush() { p.processSendQueue() }
+
+// VerifTouch marks the peer as active now.
+func (p *Peer) VerifTouch() { atomic.StoreInt64(&p.activity, time.Now().Unix()) }
+
+// VerifSubs returns the subscription counters the peer currently holds.
+func (p *Peer) VerifSubs() []message.Counter { return p.subs.All() }
+
+// VerifName returns the mesh name of this swarm.
+func (s *Swarm) VerifName() mesh.PeerName { return s.name }
+
+// VerifState returns the replicated state.
+func (s *Swarm) VerifState() *event.State { return s.state }
+
+// VerifTouch marks a peer as active (as Swarm.update does for reachable peers).
+func (s *Swarm) VerifTouch(name mesh.PeerName) { s.members.Touch(name) }
+
+// VerifSilence makes a known peer look inactive (no activity for longer than the window).
+func (s *Swarm) VerifSilence(name mesh.PeerName) {
+	if p, ok := s.members.list.Load(name); ok {
+		atomic.StoreInt64(&p.(*Peer).activity, 0)
+	}
+}
+
+// VerifPeerOffline runs the handler mesh invokes when a peer is garbage collected.
+func (s *Swarm) VerifPeerOffline(name mesh.PeerName) { s.onPeerOffline(name) }
+
+// VerifPeers lists the peers currently in the member list.
+func (s *Swarm) VerifPeers() (out []*Peer) {
+	s.members.list.Range(func(k, v interface{}) bool {
+		out = append(out, v.(*Peer))
+		return true
+	})
+	return
+}
+
+// VerifFlushPeers flushes the send queue of every known peer once.
+func (s *Swarm) VerifFlushPeers() {
+	for _, p := range s.VerifPeers() {
+		p.processSendQueue()
+	}
+}
